@@ -1003,7 +1003,11 @@ def readGraph(input_file,
             G = networkx.read_gml((line.encode('ascii')
                                   for line in input_file), label='id')
             G = graph_class.normalize(G)
-        except networkx.NetworkXError as errmsg:
+        except (networkx.NetworkXError, TypeError, AttributeError,
+                IndexError, KeyError) as errmsg:
+            # networkx's GML parser lets several internal errors escape
+            # on malformed input, and a GML graph of the wrong kind
+            # (directed vs undirected) is refused with a TypeError
             raise ValueError("[Parse error in GML input] {} ".format(errmsg))
         except UnicodeEncodeError as errmsg:
             raise ValueError(
